@@ -29,7 +29,7 @@ def runOptOp (level prog stdin : String) : String :=
   let lvl := level.toNat!
   let w : World := ⟨splitLines (decText stdin), [], []⟩
   match optimize (N := HyN.NumI) jumpBudget lvl p w with
-  | .error e => "END " ++ stopStr e
+  | .error e => "X O=- E=-|END " ++ stopStr e
   | .ok (code, size, r) =>
     let idx := dedupSorted ((List.range size) ++ candidates code)
     let head := s!"OPT size={size} {encOptState idx r.m} pre={encProg (code.take r.idx)} res={encProg (code.drop r.idx)}"
